@@ -1365,3 +1365,56 @@ const MAX_TRANSMIT_DATAGRAMS: usize = 20;
 /// memory allocations when calling `poll_transmit()`. Benchmarks have shown
 /// that numbers around 10 are a good compromise.
 const MAX_TRANSMIT_SEGMENTS: usize = 10;
+
+// ---------------------------------------------------------------------------------------------
+// verification probes (read-only; compiled only with `--cfg quinn_rs_quinn_verif`)
+#[cfg(quinn_rs_quinn_verif)]
+impl Connection {
+    /// A weak probe of this connection's wake-up bookkeeping; does not count as a handle.
+    pub fn verif_probe(&self) -> crate::verif_hooks::ConnProbe {
+        crate::verif_hooks::ConnProbe(Arc::downgrade(&(self.0).0))
+    }
+}
+
+#[cfg(quinn_rs_quinn_verif)]
+impl Connecting {
+    /// See [`Connection::verif_probe`]; `None` after the future has completed.
+    pub fn verif_probe(&self) -> Option<crate::verif_hooks::ConnProbe> {
+        self.conn
+            .as_ref()
+            .map(|c| crate::verif_hooks::ConnProbe(Arc::downgrade(&c.0)))
+    }
+}
+
+#[cfg(quinn_rs_quinn_verif)]
+impl ConnectionInner {
+    /// `[ref_count, error?, connected, handshake_confirmed, driver waker stored?, is_closed,
+    /// is_drained, n, blocked_readers ids.., n, blocked_writers ids.., n, stopped ids..]` (ids sorted)
+    pub(crate) fn verif_snapshot(&self) -> Vec<i128> {
+        let st = self.state.lock("verif_snapshot");
+        let rc = self.shared.ref_count.load(Ordering::Relaxed);
+        let mut out: Vec<i128> = vec![
+            if rc > (usize::MAX >> 1) { -((usize::MAX - rc) as i128) - 1 } else { rc as i128 },
+            st.error.is_some() as i128,
+            st.connected as i128,
+            st.handshake_confirmed as i128,
+            st.driver.is_some() as i128,
+            st.inner.is_closed() as i128,
+            st.inner.is_drained() as i128,
+        ];
+        let ids = |it: &mut dyn Iterator<Item = &StreamId>| -> Vec<i128> {
+            let mut v: Vec<i128> = it.map(|s| u64::from(*s) as i128).collect();
+            v.sort();
+            v
+        };
+        for v in [
+            ids(&mut st.blocked_readers.keys()),
+            ids(&mut st.blocked_writers.keys()),
+            ids(&mut st.stopped.keys()),
+        ] {
+            out.push(v.len() as i128);
+            out.extend(v);
+        }
+        out
+    }
+}
